@@ -270,12 +270,14 @@ def _load_pdb(total, stride, frame, bits):
             and t.unitcell_lengths.shape == (len(want), 3) and abs(float(t.unitcell_lengths[0, 0]) - 5.0) < 1e-6)
 
 
-def pdb_load_frame(total: int, frame: int, use_atoms: bool, b0: bool, b1: bool, b2: bool) -> bool:
+def pdb_load_frame(total: int, frame: int, stride: int, use_atoms: bool, b0: bool, b1: bool, b2: bool) -> bool:
     """
-    pre: 1 <= total <= 5 and -total <= frame < total and (b0 or b1 or b2)
+    pre: 1 <= total <= 5 and -total <= frame < total and 0 <= stride <= 3 and (b0 or b1 or b2)
     post: __return__
     """
-    return _load_pdb(total, None, conc(frame, -5, 4), (b0, b1, b2) if use_atoms else None)
+    # (when `frame` is given, `stride` is documented to be ignored)
+    stride = conc(stride, 0, 3)
+    return _load_pdb(total, None if stride == 0 else stride, conc(frame, -5, 4), (b0, b1, b2) if use_atoms else None)
 
 
 def pdb_load_stride(total: int, stride: int, use_atoms: bool, b0: bool, b1: bool, b2: bool) -> bool:
